@@ -34,7 +34,7 @@ Module Lit.
   Definition L_roreq := Eval vm_compute in s2r "ror=".
   Definition L_ms := Eval vm_compute in s2r "ms".
 End Lit.
-Import Lit.
+Export Lit.
 
 Fixpoint str_eqb (a b : str) : bool :=
   match a, b with
@@ -394,9 +394,7 @@ Definition lex_char (n : nat) (st : lexer) : res (token * lexer) :=
     do (l, st1) <- read_eol n st; finish (mkTok T_COMMENT l ln i) st1
   else if c =? 124 then op_dbl st ln i T_OR T_LOGICAL_OR T_BITWISE_OR
   else if c =? 38 then op_dbl st ln i T_AND T_LOGICAL_AND T_BITWISE_AND
-  else if c =? 94 then
-    (if peek_char st =? 61 then finish (mkTok T_BITWISE_XOR [94; 61] ln i) (read_char st)
-     else single st ln i T_ILLEGAL)
+  else if c =? 94 then op_eq st ln i T_ILLEGAL T_BITWISE_XOR      (* a lone ^ is ILLEGAL *)
   else if c =? 43 then op_eq st ln i T_PLUS T_ADDITION
   else if c =? 62 then op_shift st ln i T_GREATER_THAN T_RIGHT_SHIFT T_GREATER_THAN_EQUAL
   else if c =? 60 then op_shift st ln i T_LESS_THAN T_LEFT_SHIFT T_LESS_THAN_EQUAL
@@ -404,9 +402,7 @@ Definition lex_char (n : nat) (st : lexer) : res (token * lexer) :=
   else if c =? 58 then single st ln i T_COLON
   else if c =? 126 then single st ln i T_REGEX_MATCH
   else if c =? 33 then lex_bang st ln i
-  else if c =? 42 then
-    (if peek_char st =? 61 then finish (mkTok T_MULTIPLICATION [42; 61] ln i) (read_char st)
-     else single st ln i T_ILLEGAL)
+  else if c =? 42 then op_eq st ln i T_ILLEGAL T_MULTIPLICATION   (* a lone * is ILLEGAL *)
   else if c =? 0 then lex_eof st ln i
   else if c =? 10 then single st ln i T_LF
   else lex_default n st ln i.
